@@ -13,8 +13,14 @@ u8 *vf_hash_words(u8 *h, u8 *n);
 #endif
 static u8 GHOST[GHOST_MAX];      /* every block handed to a compression function, in order */
 static u32 ghost_len;
-#ifdef __CPROVER__
+#if MODEL
+#ifdef MODEL_NATIVE
+static u32 __CPROVER_uninterpreted_cmpf(u32 k, u32 a, u32 b, u64 b0, u64 b1, u64 b2, u64 b3, u64 b4, u64 b5, u64 b6, u64 b7)
+{ u64 x = 0x9e3779b97f4a7c15ULL * (k + 1) ^ a ^ ((u64)b << 32); u64 w[8] = {b0, b1, b2, b3, b4, b5, b6, b7};
+  for (int i = 0; i < 8; i++) { x ^= w[i]; x *= 0xff51afd7ed558ccdULL; x ^= x >> 29; } return (u32)(x ^ (x >> 32)); }
+#else
 u32 __CPROVER_uninterpreted_cmpf(u32, u32, u32, u64, u64, u64, u64, u64, u64, u64, u64);
+#endif
 static void uf_step(u32 *h, u32 n, const u8 *block)
 {
   const u64 *b = (const u64 *)block;           /* unaligned word reads of the 64 block bytes */
